@@ -49,7 +49,7 @@ def jobs(pid, tier):
             J.append(Job('quant', dict(N=5, L=3, maxq=1, entries=['quantify_names']),
                          need_outcomes=['returned:quantify_names']))
         else:
-            J.append(Job('quant', dict(N=6, L=3), need_outcomes=['returned:quantify_names']))
+            J.append(Job('quant', dict(N=5, L=3, entries=['quantify_names', 'apply']), need_outcomes=['returned:quantify_names']))
     if pid == 'C04':
         J.append(Job('let', dict(N=4, L=2, via=['bdd', 'autoref']), need_outcomes=['returned:' + e for e in
                      ('cofactor', 'compose1', 'compose2', 'rename', 'empty')]))
